@@ -547,7 +547,32 @@ def r5_naming_selection(ctx):
     ctx.form("{'value': data[key][0], 'unit': data[key][1]}" in s and "data[key] = data[key][0]" in s, CF, "ExportConfigJSON.parse", "a (value, unit) pair becomes {'value','unit'} or the bare value")
 
 
+def _text_on_every_path(ctx):
+    """save() writes self.text, parse() returns it: every returning path of a back-end's parse() has stored the text it
+    returns, otherwise a file written after an (empty) re-selection still holds the previous export."""
+    from ..flowexpr import paths as _paths
+    n = 0
+    for f, cname in [(x[1], x[2]) for x in BACKENDS] + [("export_bash.py", "ExportConfigBash"), ("export.py", "ExportConfig"), ("export_json.py", "ExportConfigJSON"),
+                                                         ("export_yaml.py", "ExportConfigYAML"), ("export_toml.py", "ExportConfigTOML")]:
+        if not ctx.repo.has_func(CF + f, f"{cname}.parse"):
+            continue
+        fn = ctx.fn(CF + f, f"{cname}.parse")
+        ps = [q for q in _paths(fn) if q.status == "return"]
+        stores_somewhere = any(e.kind == "store" and e.extra == "self.text" for q in ps for e in q.events)
+        if not stores_somewhere:
+            continue            # this back-end does not keep the text (nothing for save() to go stale)
+        n += 1
+        skipping = [[f"{norm(t.resolved)[:50]} is {t.extra}" for t in q.tests()] for q in ps if not any(e.kind == "store" and e.extra == "self.text" for e in q.events)]
+        what = "every returning path of parse() stores the text that save() writes"
+        if skipping:
+            ctx.violated(CF + f, f"{cname}.parse", what, detail={"returns without storing self.text under": skipping[:2]}, expected="self.text = <text> before every return")
+        else:
+            ctx.holds(CF + f, f"{cname}.parse", what)
+    ctx.floor("back-ends that keep the exported text", n, 5)
+
+
 def _selection(ctx, sel):
+    _text_on_every_path(ctx)
     """select(query, tags): the exported set becomes env.data(dtype, query=query, tags=tags) - both filters handed on."""
     from ..flowexpr import paths as _paths
     rel, q = CF + "export.py", "ExportConfig.select"
